@@ -89,7 +89,11 @@ def cases(ctx, n):
 WITNESSES = [('act', 'LONGTITLE x\n'), ('act', 'BULLETS\n  * a\n    ITEMS\n      ITEM 1\n        x\n'), ('act', 'ITEMS\n  ITEM 1\n    LONGTITLE\n'),
              ('doc', 'QUOTE\n  CROSSHEADING x\n'), ('debate', 'DEBATESECTION\n  plain\n'), ('doc', 'QUOTE\n  CROSSHEADING\n'),
              ('act', 'x {{FOOTNOTE 2}} {{FOOTNOTE 1}}\nFOOTNOTE 2\n  FOOTNOTE 1\n    y\n'), ('debate', 'SPEECH\n  FROM a\n  SPEECH\n    FROM b\n    x\n'),
-             ('act', 'PREFACE\n  QUOTE\n    PART 1\n      x\n  PARA 1\n')]
+             ('act', 'PREFACE\n  QUOTE\n    PART 1\n      x\n  PARA 1\n'),
+             # containers whose only content are footnote blocks that are all referenced from elsewhere
+             ('act', 'BODY\n  SEC 1\n    x {{FOOTNOTE 1}}\n  SEC 2\n    y {{FOOTNOTE 2}}\nCONCLUSIONS\n  FOOTNOTE 1\n    one\n  FOOTNOTE 2\n    two\n'),
+             ('doc', 'PREFACE\n  FOOTNOTE a\n    note\nBODY\n  x {{FOOTNOTE a}}\n'), ('statement', 'PREAMBLE\n  FOOTNOTE a\n    note\nBODY\n  x {{FOOTNOTE a}}\n'),
+             ('bill', 'BODY\n  x {{FOOTNOTE a}}\nCONCLUSIONS\n  FOOTNOTE a\n    note\n')]
 
 def correspondence(ctx):
     cs = cases(ctx, ctx.n(700, 40000)) + [(stages.URIS[0], r, '', t) for r, t in WITNESSES]
@@ -120,7 +124,10 @@ def _err(case):
 CLASSIFIERS = {
     'longtitle_misplaced': lambda c, d: _err(c)[0] == 'longTitle' and _err(c)[2] == 'not-expected',
     'block_content_in_bullet_item': lambda c, d: _err(c)[1] == 'li' and _err(c)[2] == 'not-expected',
-    'emptied_container': lambda c, d: _err(c)[2] == 'missing-child' and _err(c)[0] in EMPTYABLE,
+    # preface/preamble/conclusions are removed by normalise() when empty; they are only left empty when the thing that
+    # emptied them is removed in the same pass: an empty LONGTITLE or CROSSHEADING line in the input
+    'emptied_container': lambda c, d: _err(c)[2] == 'missing-child' and _err(c)[0] in EMPTYABLE and
+                         (_err(c)[0] not in ('preface', 'preamble', 'conclusions') or re.search(r'^[ \t]*(LONGTITLE|CROSSHEADING)[ \t]*$', c.get('text', ''), re.M) is not None),
     'crossheading_misplaced': lambda c, d: _err(c)[0] == 'crossHeading' and _err(c)[2] == 'not-expected',
     'paragraph_misplaced': lambda c, d: _err(c)[0] == 'p' and _err(c)[2] == 'not-expected' and _err(c)[1] in ({'debateBody', 'listWrapUp', 'listIntroduction'} | SPEECH),
     'speech_nesting': lambda c, d: _err(c)[0] in SPEECH and _err(c)[2] == 'not-expected',
